@@ -49,8 +49,7 @@ theorem length_concat (a b : Bytes) :
 
 /-- `s = CONCAT(LEFT(s,n), SUBSTRING(s,n+1))` for every well-formed `s` and every `n ≥ 0`; the two
 parts are the first `n` characters and the rest. -/
-theorem left_substring_split (rs : List Nat) (hs : Scalars rs) (n : Int) (hn : 0 ≤ n)
-    (hlen : (rs.length : Int) < 4611686018427387904) :
+theorem left_substring_split (rs : List Nat) (hs : Scalars rs) (n : Int) (hn : 0 ≤ n) :
     impl "left" [.text (enc rs), .int n] = rtext (enc (rs.take n.toNat)) ∧
     impl "substring" [.text (enc rs), .int (n + 1)] = rtext (enc (rs.drop n.toNat)) ∧
     enc (rs.take n.toNat) ++ enc (rs.drop n.toNat) = enc rs := by
@@ -71,7 +70,7 @@ theorem left_substring_split (rs : List Nat) (hs : Scalars rs) (n : Int) (hn : 0
       · simp [h0]
   · rw [impl_substring]
     simp only [fSubstring, List.length_nil, longText_enc rs hs, decode_encode rs hs]
-    rw [substr_nowrap rs n hn hlen]
+    rw [substr_nowrap rs n hn]
     simp
   · rw [← encodeRunes_append, List.take_append_drop]
 
@@ -92,19 +91,97 @@ theorem right_is_suffix (rs : List Nat) (hs : Scalars rs) (n : Int) (hn : 0 ≤ 
     congr 3
     omega
 
-/-- Without int64 overflow the three-argument SUBSTRING equals its specification; the overflow
-cases are exactly the region `substring_len_overflow_panics`. -/
-theorem substring_partial (rs : List Nat) (p l : Int)
-    (hlen : (rs.length : Int) < 4611686018427387904) (hp : minI64 ≤ p ∧ p ≤ maxI64) (hl : l ≤ maxI64)
-    (hno : ¬ ((if p < 0 then (rs.length : Int) + p else p - 1) + l > maxI64)) :
-    substrRunes rs p (some l) = some (substrRunesSpec rs p (some l)) :=
-  substr_len_nowrap rs p l hlen hp hl hno
+/-- **Full statement (holds since the `fix:` commit; it was false before, see
+`fixed_substring_len_overflow_panics`):** SUBSTRING equals its specification for *every* position
+and length — the former guard `¬ (startIdx + len > maxI64)` (`substring_partial`) is gone. The
+remaining hypotheses are those of the int64 representation of the arguments. -/
+theorem substring_spec (rs : List Nat) (p : Int) (len? : Option Int)
+    (hlen : (rs.length : Int) < 4611686018427387904) (hp : minI64 ≤ p) :
+    substrRunes rs p len? = substrRunesSpec rs p len? :=
+  substr_eq_spec rs p len? hlen hp
 
--- Full statement (false on the unchanged tree):
---   ∀ s p l, impl "substring" [s, .int p, .int l] = spec "substring" [s, .int p, .int l]
-theorem finding_substring_len_overflow_panics :
-    ∃ args, impl "substring" args ≠ spec "substring" args ∧ impl "substring" args = .crash :=
-  ⟨[.text [0x61, 0x62, 0x63], .int 2, .int 9223372036854775807], by decide⟩
+/-- The same at the level of the call: `SUBSTRING(s,p,l)` on a well-formed string is the
+specified slice of its characters, for all BIGINT `p` and all `l`. -/
+theorem substring_impl_spec (rs : List Nat) (hs : Scalars rs) (p l : Int)
+    (hlen : (rs.length : Int) < 4611686018427387904) (hp : minI64 ≤ p) :
+    impl "substring" [.text (enc rs), .int p, .int l] = rtext (enc (substrRunesSpec rs p (some l))) := by
+  rw [impl_substring]
+  simp only [fSubstring, List.length_cons, List.length_nil, longText_enc rs hs, decode_encode rs hs]
+  rw [substr_eq_spec rs p (some l) hlen hp]
+  simp
+
+example : impl "substring" [.text (enc [0x61, 0x20AC, 0x62]), .int 2, .int 9223372036854775807] = rtext (enc [0x20AC, 0x62]) ∧
+    impl "substring" [.text (enc [0x61, 0x20AC, 0x62]), .int (-2), .int 9223372036854775807] = rtext (enc [0x20AC, 0x62]) ∧
+    impl "substring" [.text (enc [0x61, 0x20AC, 0x62]), .int (-9223372036854775808), .int 9223372036854775807] = rtext [] := by
+  decide
+
+/-- SUBSTRING never panics, whatever the arguments (number, kind, value). -/
+theorem substring_never_crashes (args : List Val) : impl "substring" args ≠ .crash := by
+  rw [impl_substring]
+  unfold fSubstring badArgs
+  repeat' split
+  all_goals simp
+
+/-- The repair is conservative: wherever the pre-fix code did not panic it returned what the
+repaired code returns. -/
+theorem substring_fix_conservative (rs : List Nat) (p l : Int) (r : List Nat)
+    (hlen : (rs.length : Int) < 4611686018427387904) (hp : minI64 ≤ p ∧ p ≤ maxI64)
+    (hl : minI64 ≤ l ∧ l ≤ maxI64) (h : substrRunesPreFix rs p (some l) = some r) :
+    substrRunes rs p (some l) = r := by
+  unfold substrRunesPreFix at h
+  unfold substrRunes
+  simp only [Option.getD_some] at h ⊢
+  generalize hS : (if p < 0 then wrap64 ((rs.length : Int) + p) else p - 1) = S at h ⊢
+  have hSb : S < 4611686018427387904 + 0 ∨ S = p - 1 := by
+    subst hS
+    by_cases hneg : p < 0
+    · left
+      have : wrap64 ((rs.length : Int) + p) = rs.length + p := by
+        unfold wrap64 two63 two64 minI64 maxI64 at *; omega
+      simp only [hneg, if_true, this]; omega
+    · right; simp [hneg]
+  by_cases hc : S < 0 ∨ S ≥ (rs.length : Int) ∨ l ≤ 0
+  · rw [if_pos hc] at h; rw [if_pos hc]; exact Option.some.inj h
+  · rw [if_neg hc] at h; rw [if_neg hc]
+    by_cases hov : S + l > maxI64
+    · -- the int64 addition wrapped to a negative stop: the pre-fix code panicked
+      have hw : wrap64 (S + l) = S + l - two64 := by
+        unfold wrap64 two63 two64 minI64 maxI64 at *; omega
+      rw [hw] at h
+      have h1 : ¬ (S + l - two64 > (rs.length : Int)) := by unfold two64 maxI64 at *; omega
+      rw [if_neg h1] at h
+      have h2 : S + l - two64 < S := by unfold two64 maxI64 at *; omega
+      rw [if_pos h2] at h
+      cases h
+    · have hw : wrap64 (S + l) = S + l := by
+        unfold wrap64 two63 two64 minI64 maxI64 at *; omega
+      rw [hw] at h
+      by_cases hb : S + l > (rs.length : Int)
+      · rw [if_pos hb] at h
+        have h2 : ¬ ((rs.length : Int) < S) := by omega
+        rw [if_neg h2] at h
+        have h3 : l > (rs.length : Int) - S := by omega
+        rw [if_pos h3]
+        exact Option.some.inj h
+      · rw [if_neg hb] at h
+        have h2 : ¬ (S + l < S) := by omega
+        rw [if_neg h2] at h
+        have h3 : ¬ (l > (rs.length : Int) - S) := by omega
+        rw [if_neg h3]
+        have e : (S + l - S).toNat = l.toNat := by congr 1; omega
+        rw [e] at h
+        exact Option.some.inj h
+
+/-- Witness of the repaired defect `substring_len_overflow_panics`: before the `fix:` commit
+`SUBSTRING('abc', 2, 9223372036854775807)` (and the same with the negative position -2) panicked
+with a negative slice bound; the repaired function returns `'bc'`, which is what the Spec says. -/
+theorem fixed_substring_len_overflow_panics :
+    substrRunesPreFix [0x61, 0x62, 0x63] 2 (some 9223372036854775807) = none ∧
+    substrRunesPreFix [0x61, 0x62, 0x63] (-2) (some 9223372036854775807) = none ∧
+    impl "substring" [.text [0x61, 0x62, 0x63], .int 2, .int 9223372036854775807] = rtext [0x62, 0x63] ∧
+    impl "substring" [.text [0x61, 0x62, 0x63], .int (-2), .int 9223372036854775807] = rtext [0x62, 0x63] ∧
+    substrRunesSpec [0x61, 0x62, 0x63] 2 (some 9223372036854775807) = [0x62, 0x63] := by
+  decide
 
 /-! ## REVERSE -/
 
@@ -308,7 +385,7 @@ theorem instr_eq_locateSpec (sub s : Bytes) :
 from position 1 meets the Spec (`locate_…_partial`). -/
 theorem locate_ascii_lower_partial (sub s : Bytes) (hs : isAscii s = true) (hsub : isAscii sub = true)
     (hls : hasUpperAscii s = false) (hlsub : hasUpperAscii sub = false) (hne : s ≠ []) :
-    locateImpl sub s 1 = some (locateSpec sub s 1) := by
+    locateImpl sub s 1 = locateSpec sub s 1 := by
   have lowerId : ∀ t : Bytes, isAscii t = true → hasUpperAscii t = false → mapCase lowerByte t = t := by
     intro t ht hu
     unfold mapCase
@@ -326,13 +403,13 @@ theorem locate_ascii_lower_partial (sub s : Bytes) (hs : isAscii s = true) (hsub
   have c1 : ¬ ((1 : Int) ≤ 0 ∨ ((s.length : Int) > 0 ∧ (1 : Int) > s.length)) := by omega
   have c2 : ¬ (sub.isEmpty = true ∧ s.isEmpty = true) := by
     intro h; cases s; contradiction; simp at h
-  have c3 : ¬ ((1 : Int) - 1 > s.length) := by omega
+  have c3 : ¬ ((1 : Int) > s.length) := by omega
   have c4 : ¬ ((1 : Int) ≤ 0 ∨ (1 : Int) > (s.length : Int) + 1) := by omega
   have c5 : ¬ ((1 : Int) = (s.length : Int) + 1) := by omega
-  simp only [c1, c2, c3, c4, c5, if_false]
+  simp only [c1, c2, c4, c5, if_false]
+  simp only [c3, if_false]
   simp only [Int.sub_self, Int.toNat_zero, List.drop_zero]
   rw [lowerId s hs hls, lowerId sub hsub hlsub]
-  cases indexOf sub s <;> rfl
 
 -- Full statement (false on the unchanged tree):
 --   ∀ sub s pos, impl "locate" [.text sub, .text s, .int pos] = rint (locateSpec sub s (clamp32 pos))
@@ -347,9 +424,106 @@ theorem finding_locate_folds_case :
     impl "locate" [.text [0x41], .text [0x61]] = rint 1 ∧ impl "instr" [.text [0x61], .text [0x41]] = rint 0 ∧
     spec "locate" [.text [0x41], .text [0x61]] = rint 0 := by decide
 
-/-- `LOCATE('a','',2)` panics. -/
-theorem finding_locate_empty_str_pos_panics :
-    impl "locate" [.text [0x61], .text [], .int 2] = .crash ∧ spec "locate" [.text [0x61], .text [], .int 2] = rint 0 := by
+/-- **Full statement (holds since the `fix:` commit; it was false before, see
+`fixed_locate_empty_str_pos_panics`):** LOCATE never panics, whatever the arguments. -/
+theorem locate_never_crashes (args : List Val) : impl "locate" args ≠ .crash := by
+  rw [impl_locate]
+  unfold fLocate badArgs
+  repeat' split
+  all_goals simp
+
+/-- …and in the formerly panicking class (empty haystack, non-empty needle, any start position) it
+returns 0, as the Spec (and MySQL) says. -/
+theorem locate_empty_str (sub : Bytes) (pos : Int) (hne : sub ≠ []) :
+    locateImpl sub [] pos = 0 ∧ locateSpec sub [] pos = 0 := by
+  have hs : sub.isEmpty = false := by cases sub; contradiction; rfl
+  constructor
+  · unfold locateImpl
+    simp only [List.length_nil, hs]
+    by_cases h : pos ≤ 0
+    · simp [h]
+    · simp [h]
+  · unfold locateSpec
+    have hd : decodeRunes ([] : Bytes) = [] := rfl
+    simp only [hd, List.length_nil, hs]
+    by_cases c : pos ≤ 0 ∨ pos > ((0 : Nat) : Int) + 1
+    · rw [if_pos c]
+    · rw [if_neg c]
+      have : pos = ((0 : Nat) : Int) + 1 := by omega
+      rw [if_pos this]
+      simp
+
+theorem encodeRune_ne_nil (r : Nat) : encodeRune r ≠ [] := by
+  unfold encodeRune
+  repeat' split
+  all_goals simp
+
+theorem mapCase_ne_nil (f : Nat → Nat) (a : Nat) (t : Bytes) : mapCase f (a :: t) ≠ [] := by
+  unfold mapCase
+  split
+  · simp
+  · have hd : decodeRunes (a :: t) = (decodeRune1 a t).1 :: decodeAux ((decodeRune1 a t).2 - 1) t := rfl
+    rw [hd]
+    simp only [List.map_cons, encodeRunes]
+    intro h
+    exact encodeRune_ne_nil _ (List.append_eq_nil_iff.mp h).1
+
+/-- The repair is conservative: wherever the pre-fix code did not panic it returned what the
+repaired code returns (byte counting, case folding and the ignored NULL position are unchanged —
+they stay listed findings). -/
+theorem locate_fix_conservative (sub s : Bytes) (pos r : Int) (h : locateImplPreFix sub s pos = some r) :
+    locateImpl sub s pos = r := by
+  unfold locateImplPreFix at h
+  unfold locateImpl
+  simp only at h ⊢
+  split
+  · rename_i c; rw [if_pos c] at h; exact Option.some.inj h
+  · rename_i c; rw [if_neg c] at h
+    split
+    · rename_i c2; rw [if_pos c2] at h
+      split <;> rename_i c3
+      · rw [if_pos c3] at h; exact Option.some.inj h
+      · rw [if_neg c3] at h; exact Option.some.inj h
+    · rename_i c2; rw [if_neg c2] at h
+      by_cases c3 : pos - 1 > (s.length : Int)
+      · rw [if_pos c3] at h; cases h
+      · rw [if_neg c3] at h
+        by_cases c4 : pos > (s.length : Int)
+        · -- pos = len+1 with a non-matching empty tail: the pre-fix code searched the empty slice
+          rw [if_pos c4]
+          have hs : s = [] := by
+            cases s with
+            | nil => rfl
+            | cons a t => exfalso; apply c; right; simp at c4 ⊢; omega
+          subst hs
+          have hsub : sub.isEmpty = false := by
+            cases sub with
+            | nil => exfalso; apply c2; simp
+            | cons _ _ => rfl
+          have hp1 : pos = 1 := by simp at c3 c4; omega
+          subst hp1
+          cases sub with
+          | nil => simp at hsub
+          | cons a t =>
+            have hne := mapCase_ne_nil lowerByte a t
+            have hm : mapCase lowerByte (List.drop ((1 : Int) - 1).toNat ([] : Bytes)) = [] := rfl
+            rw [hm] at h
+            have hi : indexOf (mapCase lowerByte (a :: t)) [] = none := by
+              cases hx : mapCase lowerByte (a :: t) with
+              | nil => exact absurd hx hne
+              | cons x xs => simp [indexOf]
+            rw [hi] at h
+            simpa using h
+        · rw [if_neg c4]
+          split <;> rename_i hi <;> rw [hi] at h <;> exact Option.some.inj h
+
+/-- Witness of the repaired defect `locate_empty_str_pos_panics`: before the `fix:` commit
+`LOCATE('a','',2)` panicked (`str[position-1:]` on the empty string); the repaired function
+returns 0, which is what the Spec says. -/
+theorem fixed_locate_empty_str_pos_panics :
+    locateImplPreFix [0x61] [] 2 = none ∧
+    impl "locate" [.text [0x61], .text [], .int 2] = rint 0 ∧
+    spec "locate" [.text [0x61], .text [], .int 2] = rint 0 ∧ locateSpec [0x61] [] 2 = 0 := by
   decide
 
 /-- `LOCATE('a','a',NULL)` is 1, not NULL. -/
@@ -613,6 +787,23 @@ theorem facts_constants :
     Generated.C34.padStringConds =
       ["length <= 0", "int64(len(str)) >= length", "len(padStr) == 0", "err != nil", "padType == lPadType"] ∧
     Generated.C34.inetNtoaConvertTypes = ["types.Int32"] := by decide
+
+/-- `Locate.Eval` and `Substring.Eval` have the **repaired** shape the Impl model was written
+against (`fix:` commit for the regions `locate_empty_str_pos_panics` and
+`substring_len_overflow_panics`): the edge-case switch of LOCATE ends with the bounds case
+`position > len(str)` before its only slice `str[position-1:]`, and SUBSTRING clamps the length by
+comparing it with `runeCount-startIdx` (no int64 addition before the clamp). If either repair is
+reverted this obligation breaks, and `fixed_locate_empty_str_pos_panics` /
+`fixed_substring_len_overflow_panics` give the replays. -/
+theorem facts_match_locate_substring :
+    Generated.C34.locateSwitchConds =
+      ["position <= 0 || (len(str) > 0 && position > len(str))", "len(substr) == 0 && len(str) == 0",
+       "position > len(str)"] ∧
+    Generated.C34.locateSliceExprs = ["str[position-1:]"] ∧
+    Generated.C34.substringRuneCountConds =
+      ["startIdx < 0 || startIdx >= runeCount || length <= 0", "length > runeCount-startIdx"] ∧
+    Generated.C34.substringClampAssigns = ["length = runeCount - startIdx"] ∧
+    Generated.C34.substringSliceExprs = ["text[startIdx : startIdx+length]"] := by decide
 
 set_option maxRecDepth 100000 in
 /-- The model's HEX agrees with the compiled `HEX` on every byte; its ASCII case tables with the
